@@ -123,6 +123,11 @@ func (c *ChainIndex[T]) UpdateLastAccepted(ctx context.Context, blk T) error {
 	}
 
 	deleteBlkID, err := c.GetBlockIDAtHeight(ctx, expiryHeight)
+	if errors.Is(err, database.ErrNotFound) {
+		// No block is stored at the height leaving the window (e.g. the first
+		// accepts after state sync), so there is nothing to delete.
+		return batch.Write()
+	}
 	if err != nil {
 		return err
 	}
